@@ -86,6 +86,18 @@ class LowerRoll(Contract):
         shift = h.int("shift")
         node = h.call(pt.roll, a, shift, ax)
         if not isinstance(node, Roll):
+            # a shortcut (e.g. shift == 0 returns the operand): it must
+            # still be NumPy's roll -- for an arbitrary array that means
+            # every index is mapped to itself
+            h.oblige("lower.roll.shortcut-returns-the-operand",
+                     z3.BoolVal(node is a), props=("C02", "C01"))
+            iv = [z3.Int(f"i{d}") for d in range(r)]
+            n_ = shape_term(a.shape[ax])
+            box = z3.And([z3.And(iv[d] >= 0, iv[d] < shape_term(a.shape[d]))
+                          for d in range(r)])
+            h.oblige("lower.roll.shortcut-is-the-identity-roll",
+                     z3.Implies(box, py_mod(iv[ax] - z_of(shift), n_)
+                                == iv[ax]), props=("C02", "C01"))
             return
         node = decorate(node)
         arrays = ArrayModel()
@@ -168,6 +180,10 @@ class LowerStack(Contract):
         ops = same_shape_operands(h, k, r)
         node = h.call(pt.stack, ops, ax)
         if not isinstance(node, Stack):
+            # no shortcut is known for this constructor: whatever it returned
+            # instead must be accounted for, not skipped
+            h.fail("lower.stack.constructor-returns-Stack",
+                   type(node).__name__, props=("C02", "C01"))
             return
         node = decorate(node)
         arrays = ArrayModel()
@@ -227,6 +243,10 @@ class LowerConcatenate(Contract):
         ops = same_shape_operands(h, k, r, except_axis=ax)
         node = h.call(pt.concatenate, ops, ax)
         if not isinstance(node, Concatenate):
+            # no shortcut is known for this constructor: whatever it returned
+            # instead must be accounted for, not skipped
+            h.fail("lower.concatenate.constructor-returns-Concatenate",
+                   type(node).__name__, props=("C02", "C01"))
             return
         node = decorate(node)
         arrays = ArrayModel()
@@ -298,6 +318,10 @@ class LowerAxisPermutation(Contract):
         a = mk_placeholder(h, "a", r)
         node = h.call(pt.transpose, a, perm)
         if not isinstance(node, AxisPermutation):
+            # no shortcut is known for this constructor: whatever it returned
+            # instead must be accounted for, not skipped
+            h.fail("lower.axis_permutation.constructor-returns-AxisPermutation",
+                   type(node).__name__, props=("C02", "C01"))
             return
         node = decorate(node)
         arrays = ArrayModel()
